@@ -20,6 +20,7 @@ func base(prop string) *Profile {
 // rotate with the seed so that one batch mixes several workload shapes (swarm).
 func ProfileFor(prop, tier string, seed uint64) *Profile {
 	pf := base(prop)
+	pf.Tier = tier
 	thorough := tier == "thorough"
 	v := int(seed % 8)
 	switch prop {
